@@ -93,6 +93,9 @@ func runSeq(k int) {
 		}
 	}
 	m := &seqModel{}
+	var intruder *actor // a process that tried (and failed) to register the taken event name
+	intruders, intruderDeaths := 0, 0
+	defer func() { killAll(intruder) }()
 	var trace []string
 	var events int64
 	fid := 0
@@ -267,6 +270,27 @@ func runSeq(k int) {
 		_ = step
 	}
 
+	// while the event is registered and its owner alive nobody may be told that it ended
+	noSpurious := func(step string) {
+		for _, s := range subs {
+			if s.dead {
+				continue
+			}
+			sg := s.a.signals(m.ev)
+			if len(sg) > s.sigs {
+				kind := "exit"
+				if sg[len(sg)-1].Down {
+					kind = "down"
+				}
+				sfx := ""
+				if s.a.remote {
+					sfx = "-remote"
+				}
+				res.violate("spurious-"+kind+"-while-event-registered"+sfx, "%s after %s: received %v for %s although the event is registered and its owner alive (trace %v)", s.a.label, step, sg[len(sg)-1], m.ev, trace)
+			}
+		}
+	}
+
 	finalSignals := func() {
 		// exactly the owed number of notifications per subscriber for the last event name
 		for _, s := range subs {
@@ -316,7 +340,7 @@ func runSeq(k int) {
 			m.token = tok
 			m.registered = true
 
-		case op < 30: // publish with the token, by the owner or a delegate
+		case op < 28: // publish with the token, by the owner or a delegate
 			cnt := 1 + rng.Intn(6)
 			p := owner
 			who := "owner"
@@ -357,7 +381,7 @@ func runSeq(k int) {
 			}
 			events += int64(cnt)
 
-		case op < 40: // publish with a wrong token
+		case op < 37: // publish with a wrong token
 			var tok gen.Ref
 			kind := rng.Intn(3)
 			switch {
@@ -388,7 +412,7 @@ func runSeq(k int) {
 				}
 			}
 
-		case op < 65: // subscribe
+		case op < 61: // subscribe
 			s := subs[rng.Intn(len(subs))]
 			if s.dead {
 				continue
@@ -443,7 +467,7 @@ func runSeq(k int) {
 				transition = "first"
 			}
 
-		case op < 82: // unsubscribe
+		case op < 77: // unsubscribe
 			s := subs[rng.Intn(len(subs))]
 			if s.dead {
 				continue
@@ -481,7 +505,7 @@ func runSeq(k int) {
 				transition = "last"
 			}
 
-		case op < 88: // unregister
+		case op < 83: // unregister
 			desc = "unregister"
 			if rng.Intn(4) == 0 {
 				// a non-owner must not be able to unregister
@@ -497,7 +521,7 @@ func runSeq(k int) {
 				endEvent(desc)
 			}
 
-		case op < 94: // owner terminates
+		case op < 88: // owner terminates
 			how := []string{"kill", "exit", "panic"}[rng.Intn(3)]
 			desc = "owner-" + how
 			switch how {
@@ -523,6 +547,51 @@ func runSeq(k int) {
 			if err := setupFence(owner, subActors()); err != nil {
 				res.inconclusive(err.Error())
 			}
+
+		case op < 93 || (op < 96 && intruder == nil): // another process (or the node) tries to register the taken name
+			nodeVariant := rng.Intn(3) == 0
+			var err error
+			if nodeVariant {
+				desc = "register-taken(node)"
+				_, err = nodeA.RegisterEvent(m.name, gen.EventOptions{Buffer: rng.Intn(3), Notify: rng.Intn(2) == 0})
+			} else {
+				if intruder == nil {
+					intruders++
+					intruder, err = spawnActor(nodeA, false, fmt.Sprintf("%s/intruder%d", id, intruders))
+					if err != nil {
+						res.inconclusive("spawn intruder: " + err.Error())
+						break
+					}
+				}
+				desc = "register-taken(intruder)"
+				_, err = intruder.register(m.name, gen.EventOptions{Buffer: rng.Intn(3), Notify: rng.Intn(2) == 0})
+			}
+			events++
+			if err == nil {
+				res.violate("register-taken-name-accepted", "%s: RegisterEvent of %s, which is registered by another process, returned nil", desc, m.name)
+			} else if errors.Is(err, errWatchdog) {
+				res.inconclusive("watchdog: register did not return")
+			}
+
+		case op < 96: // the process whose registration failed terminates: the event is not its business
+			how := []string{"kill", "exit", "panic"}[rng.Intn(3)]
+			desc = "intruder-" + how
+			switch how {
+			case "kill":
+				intruder.kill()
+			case "exit":
+				intruder.tell(cDie{Reason: gen.TerminateReasonNormal})
+			case "panic":
+				intruder.tell(cPanic{})
+			}
+			x := intruder
+			if !hk.WaitUntil(10*time.Second, func() bool { return x.termed.Load() && x.inst.Quiet() }) {
+				res.inconclusive("watchdog: intruder did not terminate")
+				break
+			}
+			intruder = nil
+			intruderDeaths++
+			events++
 
 		default: // subscriber dies without unsubscribing
 			if !allowDeath {
@@ -554,9 +623,19 @@ func runSeq(k int) {
 		if !quiesce(fences) {
 			break
 		}
+		if m.registered {
+			noSpurious(desc)
+		}
 		compare(desc)
 		if m.registered {
 			notes(desc, transition)
+		}
+	}
+	if m.registered && res.incon == "" && len(res.viol) == 0 {
+		// remote notifications travel asynchronously: give a spurious one the chance to be seen
+		hk.WaitUntil(2*time.Second, func() bool { return netQuiescent() })
+		if quiesce(nil) {
+			noSpurious("end of history")
 		}
 	}
 	finalSignals()
@@ -564,6 +643,6 @@ func runSeq(k int) {
 	if len(trace) > 60 {
 		trace = trace[len(trace)-60:]
 	}
-	key := fmt.Sprintf("seq/local=%d/remote=%d/death=%v/evicted=%v/ended=%v/wrongtoken=%v", nLocal, nRemote, allowDeath, evicted, ended > 0, wrongTok > 0)
+	key := fmt.Sprintf("seq/local=%d/remote=%d/death=%v/evicted=%v/ended=%v/wrongtoken=%v/intruderdied=%v", nLocal, nRemote, allowDeath, evicted, ended > 0, wrongTok > 0, intruderDeaths > 0)
 	finish(id, "seq", key, false, events, res, map[string]any{"trace": trace})
 }
